@@ -115,3 +115,12 @@ Fixpoint consist_run (c : Consistf) (tr : list (float * float)) : res Consistf :
   end.
 Definition x_consist_walk (c : Consistf) (tr : list (float * float)) : list out :=
   res_outs (consist_run c tr) consist_outs.
+
+(* ---- train-level wheel energies + consist (C11) ---- *)
+From AltModel Require Import TrainEnergy.
+Definition te_outs (t : TrainEnergy (F:=float)) : list out :=
+  [OF (te_pwr_whl_out t); OF (te_energy_whl_out t); OF (te_energy_whl_out_pos t); OF (te_energy_whl_out_neg t)].
+Definition x_train_consist_step (t : TrainEnergy (F:=float)) (c : Consistf) (p dt : float) : list out :=
+  res_outs (train_consist_step (t, c) p dt) (fun tc => te_outs (fst tc) ++ consist_outs (snd tc)).
+Definition x_trip_outputs (c : Consistf) (annualize : bool) (days : option float) : list out :=
+  [OZ 0; OF (trip_energy_fuel c annualize days); OF (trip_net_energy_res c annualize days); OF (scaling_factor annualize days)].
